@@ -60,6 +60,43 @@ CHECKS = {
         design_ref="DESIGN.md 4 C02",
         note="Trusted: TLC/SANY/Json module, numpy, float32 exactness on |v|<2^24. Exhaustive only within the listed extents (<=4-5), k<=3.",
     ),
+    "C12": dict(
+        engine="tlc+replay",
+        technique="TLA+ multi-image store machine (MultiImage.tla operators defined by type, explicit storage order) model-checked over all construction histories; every TLC behaviour replayed into real MultiImage objects with the full abstract state compared after each step",
+        category="model_checking",
+        text=("TLC enumerates every history build a; build b; [jit/vmap/tree_flatten round trip | to_vector/from_vector | copy]; "
+              "op over all insertion orders of three types whose blocks have equal element counts (so mis-pairing would be silent), "
+              "constructor vs append, and checks ArithByType: (a+b)[t]=a[t]+b[t], results equal for every re-ordering of either "
+              "operand, different type sets rejected. Each behaviour is replayed on real objects (real jax.jit / jax.vmap identity), "
+              "blocks compared by type and exactly after every step; thorough adds simulated depth-6 histories with concat/split."),
+        design_ref="DESIGN.md 4 C12",
+        note="Trusted: TLC/SANY/Json, float32 exactness on tokens. Three types, history depth <= 4 exhaustive (6 simulated).",
+    ),
+    "C13": dict(
+        engine="tlc+replay",
+        technique="TLA+ store machine with the re-layout operators (vector, scalar-channel layout contract, concat/split, expand/combine/merge, pmap split, images, pytree) model-checked for the round-trip laws on every reachable state; chains replayed position-exactly on token values; model save/load bit-compared",
+        category="model_checking",
+        text=("RoundTripLaws and ConcatSplitLaw are TLC invariants over every store state reached by chains of the re-layout "
+              "operations themselves (d=1,2,3, non-square, 1-3 leading axes, partial type sets, all storage orders). Every chain "
+              "of the bounded depth (plus simulated depth-6 chains) is replayed into real MultiImage objects on token values, so "
+              "each intermediate layout -- not only the composed identity -- is compared entry by entry with the specified one. "
+              "ml.save/ml.load is exercised per model class: leaves and outputs bit-equal after loading into a differently "
+              "initialised twin."),
+        design_ref="DESIGN.md 4 C13",
+        note="Trusted: TLC/SANY/Json, float32 exactness on tokens, equinox serialisation API. Chains bounded (depth 3-4 exhaustive, 6 simulated).",
+    ),
+    "C14": dict(
+        engine="tlc+replay",
+        technique="TLA+ definitions of the per-image multi-image operations as the single-image operation on every leading entry; TLC-enumerated layouts replayed exactly; vmap and replacement-invariance of layers/models evaluated numerically",
+        category="model_checking",
+        text=("The spec defines group action, pixel norm, average pooling, component selection and to_images of a multi-image as "
+              "the single-image operator applied to each leading entry (0-3 leading axes with pairwise distinct sizes, several "
+              "types, d=1,2,3, every group element); TLC enumerates chains New;op;op and the harness compares the real methods "
+              "exactly after each step. For layers and models (equivariant and conventional with group norm) vmap(model)(batch)[i] "
+              "is compared with model(batch[i]) and the other batch entries are replaced/permuted (exploration, 1e-5/1e-6 relative)."),
+        design_ref="DESIGN.md 4 C14",
+        note="Trusted: TLC/SANY/Json; float32 exact on small integers; the vmap half is sampling with a tolerance.",
+    ),
     "C17": dict(
         engine="tlc+trace",
         technique="TLA+ training-loop machine (TrainLoop!MakeBatches guards) model-checked over all epoch orders; recorded ml.get_batches calls (token data carrying sample indices) and the batches of real ml.train runs validated by the TLC trace spec",
@@ -72,6 +109,18 @@ CHECKS = {
               "axis a pure reshape (same order as with one device). Rejections name the violated guard."),
         design_ref="DESIGN.md 4 C17",
         note="Trusted: TLC/SANY/Json; one CPU device (device counts via repeated handles). (L,B) exhaustive to 8/12, keys sampled.",
+    ),
+    "C18": dict(
+        engine="tlc+replay",
+        technique="TLA+ loss numerators (Losses.tla) over the multi-image store; TLC checks pairing-by-type, zero-iff-equal, step-sum and group-invariance laws on every store state and emits numerators that the real losses are compared with",
+        category="model_checking",
+        text=("LossLaws is a TLC invariant on every store state built by all insertion orders / append / pytree round trips: "
+              "numerators unchanged by re-ordering either argument, >=0, zero iff equal by type, sum of per-step = total, "
+              "unchanged when the same group element acts on both arguments. For each behaviour smse_loss (mean/None), "
+              "timestep_smse_loss (mean/max/None) and normalized_smse_loss (exact and default eps) are compared with "
+              "numerator/denominator (2e-6 relative; a mis-pairing moves an integer numerator by >= 1), d=2,3, non-square."),
+        design_ref="DESIGN.md 4 C18",
+        note="Trusted: TLC/SANY/Json; float64 evaluation of numerator/denominator vs float32 library arithmetic (tolerance 2e-6 / 2e-5).",
     ),
     "C19": dict(
         engine="tlc+replay+trace",
